@@ -99,50 +99,62 @@ def check_flags(fi, fe):
 
 
 def char_arm(ctx, prog, b, fn, ps, cur, key):
+    """decision table of the char arm over the value classes of `cur as u32` (special scalars vs the rest) x every other
+    condition the arm branches on: in every case the unique live path must be the std step"""
     x = ("cast", "int2int", "u32", cur)
     F = "konst_kernel::chr::from_u32"
-    table_ = {}
-    default = None
-    msg = None
+
+    def about_from_u32(c):
+        return c[0] in ("is", "isnot") and isinstance(c[1], tuple) and c[1][0] == "call" and c[1][1] == F
+
+    rets = []
     for p in ps:
         if p.kind != "return":
             continue       # opt_unwrap!(None) panics: unreachable for the scalar values produced here (C07 decides from_u32)
-        fi, fe, ov, nx = p.value[2:6]
-        msg = msg or check_flags(fi, fe)
-        sel = [c for c in p.conds if c[0] in ("in", "notin") and c[1] == x]
-        if len(sel) != 1:
-            msg = msg or "char arm does not switch on `%s as u32`" % show(cur)
-            continue
-        arg = nx[1][3] if nx[0] == "vfield" and nx[1][0] == "call" and nx[1][1] == F else None
-        if arg is None:
-            msg = msg or "next char is %s, expected chr::from_u32(..) unwrapped" % show(nx)
-            continue
-        if sel[0][0] == "in":
-            for v in sel[0][2]:
-                table_[v] = (arg, ov)
-        else:
-            default = (arg, ov, set(sel[0][2]))
+        p.conds = tuple(table.strip_gargs(c) for c in p.conds if not about_from_u32(c) and variant_of_cond(c) is None)
+        rets.append(p)
     if fn == "increment":
-        want = {0xD7FF: (("int", 0xE000, "u32"), ("bool", False)), 0x10FFFF: (None, ("bool", True))}
-        want_def = ("bin", "Add", x, ("int", 1, "u32"))
+        special = {0xD7FF: (("int", 0xE000, "u32"), False), 0x10FFFF: (None, True)}
+        op = "Add"
     else:
-        want = {0xE000: (("int", 0xD7FF, "u32"), ("bool", False)), 0: (None, ("bool", True))}
-        want_def = ("bin", "Sub", x, ("int", 1, "u32"))
-    if not msg:
-        if set(table_) != set(want):
-            msg = "special cases are %s, expected %s" % (sorted(hex(v) for v in table_), sorted(hex(v) for v in want))
-        else:
-            for v, (arg, ov) in want.items():
-                g_arg, g_ov = table_[v]
-                if g_ov != ov:
-                    msg = msg or "at %#x overflowed is %s, expected %s" % (v, show(g_ov), show(ov))
-                if arg is not None and g_arg != arg:
-                    msg = msg or "at %#x the next scalar is %s, expected %s" % (v, show(g_arg), show(arg))
-            if default is None or default[0] != want_def or default[1] != ("bool", False) or default[2] != set(want):
-                msg = msg or "default case is %s, expected %s without overflow" % (show(default[0]) if default else "?", show(want_def))
-    if msg:
-        ctx.violation("TAB-STEP", key, "%s<char>: %s" % (fn, msg), b.file())
-    ctx.instance("TAB-STEP", key, sample={"fn": fn, "type": "char", "special": sorted(hex(v) for v in table_)})
+        special = {0xE000: (("int", 0xD7FF, "u32"), False), 0: (None, True)}
+        op = "Sub"
+
+    def outcome(arg_want, ov_want):
+        def f(path, case):
+            fi, fe, ov, nx = path.value[2:6]
+            m = check_flags(fi, fe)
+            if m:
+                return m
+            arg = nx[1][3] if nx[0] == "vfield" and nx[1][0] == "call" and nx[1][1] == F else None
+            if arg is None:
+                return "next char is %s, expected chr::from_u32(..) unwrapped" % show(nx)
+            if ov != ("bool", ov_want):
+                return "overflowed is %s, expected %s" % (show(ov), ov_want)
+            if arg_want == "step":
+                if not (arg[0] == "bin" and arg[1] == op and arg[2] == x and is_one(arg[3])):
+                    return "next scalar is %s, expected %s %s 1" % (show(arg), show(x), "+" if op == "Add" else "-")
+            elif arg_want is not None and (arg[0], arg[1]) != (arg_want[0], arg_want[1]):
+                return "next scalar is %s, expected %s" % (show(arg), show(arg_want))
+            return None
+        return f
+
+    rows = [Row([("in", x, (v,))], outcome(a, o), name="cur == %#x" % v) for v, (a, o) in sorted(special.items())]
+    rows.append(Row([("notin", x, tuple(sorted(special)))], outcome("step", False), name="any other scalar"))
+    try:
+        mism, n, dec = table.compare(rets, rows, extra_consts=sorted(special))
+    except table.Undecided as e:
+        ctx.violation("TAB-STEP", key, "%s<char>: undecided: %s" % (fn, e), b.file())
+        mism, n, dec = [], 0, 0
+    for m in mism[:2]:
+        ctx.violation("TAB-STEP", key, "%s<char>: %s" % (fn, m), b.file())
+    ctx.instance("TAB-STEP", key, sample={"fn": fn, "type": "char", "cases": n, "decided": dec})
+
+
+def variant_of_cond(c):
+    if c[0] == "is" and c[1][0] == "const" and "WITNESS" in c[1][1]:
+        return c[2]
+    return None
 
 
 # ------------------------------------------------------------------------------
